@@ -202,7 +202,7 @@ def array_model(model, c, ibits):
     return {'default': default, 'entries': entries}
 
 
-def run_entry(world, entry, config=None, timeout_ms=120000, known=None, want_models=True, max_unwind=None, setup=None):
+def run_entry(world, entry, config=None, timeout_ms=120000, known=None, want_models=True, max_unwind=None, setup=None, only=None, skip_implicit=False):
     """symbolically execute one harness entry; discharge its obligations. Returns a dict."""
     prog = world.prog
     ex = world.ex
@@ -244,6 +244,10 @@ def run_entry(world, entry, config=None, timeout_ms=120000, known=None, want_mod
     nq = 0
     tsolve = 0.0
     for ob in ex2.obligations:
+        if ob.kind == 'assert' and only is not None and not re.match(only, ob.name):
+            continue
+        if skip_implicit and ob.kind not in ('assert', 'reach'):
+            continue
         o = {'kind': ob.kind, 'name': ob.name, 'pos': short_pos(ob.pos)}
         cond = ob.cond
         t1 = time.time()
@@ -458,7 +462,7 @@ class Check:
         os.makedirs(os.path.join(VERIF, 'replays', self.prop), exist_ok=True)
         seen_names = set()
         for r, o in violations:
-            key = (r['entry'], o['name'], o['kind'])
+            key = (r['entry'], json.dumps(r.get('config'), sort_keys=True), o['name'], o['kind'])
             if key in seen_names and len(confirmed) >= 1:
                 continue
             seen_names.add(key)
